@@ -52,7 +52,7 @@ pub fn main()
 		}
 	}
 	
-	println!(".addr 0x{BASE:08X}");
+	println!(".addr 0x{BASE:08X};");
 	let mut space = false;
 	let mut last = BASE;
 	for (addr, (instr, after)) in instrs
